@@ -239,9 +239,13 @@ func combinedPackageSpace() kit.Space {
 				ld, isListed := listed[n]
 				same := (l == nil && (!isListed || ld == nil)) || (l != nil && isListed && ld != nil && reflect.ValueOf(l).Pointer() == reflect.ValueOf(ld).Pointer())
 				if !same {
-					// a contract question of the two lookup methods (C22's business), with a
-					// nil declaration that the embedder should not supply: observed, not a C19 verdict
-					return kit.Outcome{OK: true, Class: "observed: Lookup and LookupFunc disagree on a name whose first declaration is nil (see C22)", Nontrivial: true}
+					// A disagreement caused by a nil declaration (which the embedder should
+					// not supply) is a contract question of the two lookup methods: C22's
+					// business, observed here. Any other disagreement goes on to the build
+					// below, where what is bound and executed decides.
+					if l == nil || !isListed || ld == nil {
+						return kit.Outcome{OK: true, Class: "observed: Lookup and LookupFunc disagree on a name whose first declaration is nil (see C22)", Nontrivial: true}
+					}
 				}
 			}
 			// the build: both names are used
